@@ -400,10 +400,18 @@ def run(ctx):
             for row in (0, 2):
                 for bs in (1, 2):
                     cfgs.append({'store': store, 'dtype': dt, 'row': row, 'bs': bs})
+    # batch sizes at which the number of rows grows a decimal digit within the depth (5, 10, 15 ... / 50, 100, ...): the
+    # shape string in the .npy header gets longer while the header must keep its length
+    if q:
+        big = [('npy', 0, 5), ('pool', 2, 5), ('npy', 0, 50)]
+    else:
+        big = [(st_, row, bs) for st_ in ('npy', 'pool') for row in (0, 2) for bs in (5, 50)]
+    for st_, row, bs in big:
+        cfgs.append({'store': st_, 'dtype': 'f8', 'row': row, 'bs': bs})
     cases = []
     for cfg in cfgs:
         d = depth
-        if not q and not (cfg['dtype'] == 'f8' or (cfg['row'] == 0 and cfg['bs'] == 2)):
+        if not q and (cfg['bs'] > 2 or not (cfg['dtype'] == 'f8' or (cfg['row'] == 0 and cfg['bs'] == 2))):
             d = depth - 1     # the deepest level only for a sub-family of configurations (stated in evidence)
         cases.append({'kind': 'config', 'cfg': cfg, 'depth': d, 'validate_depth': 2 if q else 3})
     res = []
@@ -429,7 +437,8 @@ def run(ctx):
     ctx.add_sample({'history': LONG_HISTORY, 'note': 'every prefix judged, every raw op a crash point'}, key='long')
     ctx.rule = ('histories: every operation sequence up to depth %d (first op is the initialising append) over '
                 '{append, overwrite(first|last), delete-last, clear, flush, close+reopen, read-all, pickle round trip | pool: '
-                're-add, save} per store configuration (NpyStore|ArrayPool store x dtype x row shape x batch_size); '
+                're-add, save} per store configuration (NpyStore|ArrayPool store x dtype x row shape x batch_size 1, 2, plus '
+                'float64 configurations with batch_size 5 and 50, where the row count grows a decimal digit); '
                 'crash images: one per raw file operation (write/truncate/memmap store) of the last operation of every '
                 'history, judged when a flush completed before it; evaluations = histories + crash images; all distinct '
                 'by construction' % depth)
